@@ -21,6 +21,9 @@ def main():
         rc = mod.replay(ctx, data)
         print('reproduces' if rc else 'does not reproduce')
         sys.exit(rc)
+    # wall-clock budget of the whole check: exploration stops with INCONCLUSIVE (exit 2) instead of running on
+    budget = float(os.environ.get('VERIF_BUDGET_S', '0') or 0) or (1500.0 if ctx.tier == 'quick' else 5400.0)
+    os.environ['VERIF_DEADLINE'] = str(time.time() + budget)
     try:
         mod.run(ctx)
     except (Budget, Unsupported, Inconclusive) as ex:
